@@ -285,3 +285,58 @@ func sweepThroughOrigin(c *engine.Ctx, steps int, emit func(a, b, p [2]float64))
 		}
 	})
 }
+
+// sweepMixedScale: triples whose ordinates have few significant bits each (20..26-bit integers
+// times a power of two - every one of them exactly representable even in single precision when
+// 24 bits suffice) but very different binary exponents: A = -a, B = s*b, P = j*s*b with
+// cross(a,b) = +-1 from the extended Euclidean algorithm and s = 2^10, 2^23, 2^30. The exact
+// cross product is tiny against the products of the differences (which need twice
+// (bits + log2 s) bits), so any evaluation in rounded arithmetic sees only noise, and a shortcut
+// that trusts "simple" inputs (integers, single-precision values) goes wrong here.
+func sweepMixedScale(c *engine.Ctx, emit func(a, b, p [2]float64)) {
+	type tri struct{ a, b, p [2]float64 }
+	var ts []tri
+	seq := uint64(0x2545F4914F6CDD1D)
+	next := func(bits uint) int64 {
+		seq ^= seq << 13
+		seq ^= seq >> 7
+		seq ^= seq << 17
+		return int64(seq>>(64-bits)) | int64(1)<<(bits-1)
+	}
+	for _, bits := range []uint{20, 23, 26} {
+		for n := 0; n < 120; n++ {
+			b1, b2 := next(bits), next(bits)
+			g, u, v := new(big.Int), new(big.Int), new(big.Int)
+			g.GCD(u, v, big.NewInt(b1), big.NewInt(b2)) // u*b1 + v*b2 = 1
+			if g.Cmp(big.NewInt(1)) != 0 || !u.IsInt64() || !v.IsInt64() {
+				continue
+			}
+			// cross(a,b) = a1*b2 - a2*b1 = 1 with a = (v, -u)
+			a1, a2 := float64(v.Int64()), -float64(u.Int64())
+			for _, sh := range []int{10, 23, 30} {
+				s := math.Ldexp(1, sh)
+				for _, j := range []float64{2, 3, 0.5} {
+					for sign := 0; sign < 4; sign++ {
+						sx, sy := 1.0, 1.0
+						if sign&1 != 0 {
+							sx = -1
+						}
+						if sign&2 != 0 {
+							sy = -1
+						}
+						ts = append(ts, tri{
+							[2]float64{-a1 * sx, -a2 * sy},
+							[2]float64{s * float64(b1) * sx, s * float64(b2) * sy},
+							[2]float64{j * s * float64(b1) * sx, j * s * float64(b2) * sy}})
+					}
+				}
+			}
+		}
+	}
+	c.Note("mixed_scale_triples", len(ts))
+	c.Parallel(len(ts), func(i int) { emit(ts[i].a, ts[i].b, ts[i].p) })
+}
+
+func c10MixedScale(c *engine.Ctx) {
+	sweepMixedScale(c, func(a, b, p [2]float64) { c10Lean(c, "mixed_scale_cases", a, b, p) })
+}
